@@ -402,6 +402,9 @@ func (m *manager) updateValidationStatus(ctx context.Context, chid datatransfer.
 
 	// dispatch channel events and generate a response message
 	chst, response, err := m.processValidationUpdate(ctx, chid, result)
+	if err != nil {
+		return err
+	}
 
 	// dispatch transport updates
 	return m.handleTransportUpdate(ctx, chst, response, result, err)
